@@ -586,13 +586,13 @@ pub mod panics {
 }
 
 #[cfg(any(vcfg_x86std, vcfg_x86none, vcfg_x86alloc, vcfg_x86avx2, vcfg_x86rel))]
-inst!(panic_below_min_sse2_find, [props=C14+C05 tier=quick cfg=x86std+x86rel t=900 role=documented-panic-exactness expect=fail:haystack_too_small], 6, panics::below_min::<3, 20>(0, false));
+inst!(panic_below_min_sse2_find, [props=C14+C05 tier=quick cfg=x86std+x86rel t=900 role=documented-panic-exactness expect=failat:arch/generic/packedpair.rs], 6, panics::below_min::<3, 20>(0, false));
 #[cfg(any(vcfg_x86std, vcfg_x86none, vcfg_x86alloc, vcfg_x86avx2, vcfg_x86rel))]
-inst!(panic_below_min_sse2_pre, [props=C14+C05 tier=quick cfg=x86std+x86rel t=900 role=documented-panic-exactness expect=fail:haystack_too_small], 6, panics::below_min::<3, 20>(0, true));
+inst!(panic_below_min_sse2_pre, [props=C14+C05 tier=quick cfg=x86std+x86rel t=900 role=documented-panic-exactness expect=failat:arch/generic/packedpair.rs], 6, panics::below_min::<3, 20>(0, true));
 #[cfg(any(vcfg_x86std, vcfg_x86none, vcfg_x86alloc, vcfg_x86avx2, vcfg_x86rel))]
-inst!(panic_below_min_avx2_find, [props=C14+C05 tier=quick cfg=x86std+x86rel t=900 role=documented-panic-exactness expect=fail:haystack_too_small], 6, panics::below_min::<3, 20>(1, false));
+inst!(panic_below_min_avx2_find, [props=C14+C05 tier=quick cfg=x86std+x86rel t=900 role=documented-panic-exactness expect=failat:arch/generic/packedpair.rs], 6, panics::below_min::<3, 20>(1, false));
 #[cfg(any(vcfg_x86std, vcfg_x86none, vcfg_x86alloc, vcfg_x86avx2, vcfg_x86rel))]
-inst!(panic_below_min_g4_pre, [props=C14+C05 tier=quick cfg=x86std+x86rel t=900 role=documented-panic-exactness expect=fail:haystack_too_small], 6, panics::below_min::<3, 8>(2, true));
+inst!(panic_below_min_g4_pre, [props=C14+C05 tier=quick cfg=x86std+x86rel t=900 role=documented-panic-exactness expect=failat:arch/generic/packedpair.rs], 6, panics::below_min::<3, 8>(2, true));
 
 // ---------------------------------------------------------------------------
 // C05: safe calls whose needle differs from the construction needle. Only
@@ -667,7 +667,7 @@ inst!(mm_twoway_fwd, [props=C05 tier=quick cfg=x86std t=1500 role=mismatched-nee
 inst!(mm_twoway_rev, [props=C05 tier=quick cfg=x86std t=1500 role=mismatched-needle], 9, mismatch::twoway_other_needle::<3, 5, 6>(true));
 inst!(mm_rk_fwd, [props=C05 tier=quick cfg=x86std t=1500 role=mismatched-needle], 9, mismatch::rabinkarp_other_needle::<3, 6, 6>(false));
 inst!(mm_rk_rev, [props=C05 tier=quick cfg=x86std t=1500 role=mismatched-needle], 9, mismatch::rabinkarp_other_needle::<3, 6, 6>(true));
-inst!(mm_packed_g4, [props=C05 tier=quick cfg=x86std t=1500 role=mismatched-needle], 9, mismatch::packed_other_needle::<3, 8, 10>());
+inst!(mm_packed_g4, [props=C05 tier=quick cfg=x86std t=1500 role=mismatched-needle], 9, mismatch::packed_other_needle::<2, 4, 7>());
 
 // C10: nondeterministic ranker x both prefilter settings
 inst!(rank_n2_sse2, [props=C10+C03 xprops=C14 tier=quick cfg=x86std t=1800 role=nondet-ranker-packed uw=@RK;@TWNEW;@TWOFF;with_ranker:6;oracle:6;@PP], 3,
